@@ -194,7 +194,9 @@ def fmt_formula(t):
 
 
 def witness(c, **kw):
-    w = {'formula': strip_sids(c['tree']), 'tree': c['tree'], 'betas': c.get('betas'), 'rows': c.get('rows'),
+    trees = c.get('trees') or [c['tree']]
+    w = {'formula': strip_sids(trees[0]) if len(trees) == 1 else [strip_sids(t) for t in trees],
+         'tree': c.get('tree'), 'betas': c.get('betas'), 'rows': c.get('rows'),
          'generators': c.get('gens'), 'N': len(c.get('rows') or []), 'R': c.get('R'), 'threads': c.get('threads'),
          'draws': c.get('draws'), 'case': c}
     w.update(kw)
@@ -223,7 +225,9 @@ def rename_by_type(t):
 
 def stream_mc(ctx, only=None):
     st = ctx.stream('mc', 'MonteCarlo formulas (random typed DAGs, depth<=4, 1-3 draw variables of different user types, tagged deterministic '
-                    'generators, names with sorted order != appearance != registration order) x N in {1,3,6} x R in {1,2,5,16} x threads '
+                    'generators, names with sorted order != appearance != registration order; + 2-3 formulas side by side through one '
+                    'IdManager([...]) and one BIOGEME(db, {...}).simulate sharing draw names, same type = accepted, two types = refused) '
+                    'x N in {1,3,6} x R in {1,2,5,16} x threads '
                     '1-3; get_value_c (prepare_ids / two-step) and BIOGEME.simulate per observation vs proved enclosure of the mean over the '
                     'declared types\' series; non-trivial = >= 2 draw variables with the three orders pairwise different and verdict decided; '
                     'distinct by (formula, generators, N, R, path, observation)')
@@ -330,6 +334,111 @@ def stream_mc(ctx, only=None):
     st.extra.update({'undecided': und, 'operator_coverage': cov,
                      'R_values': sorted({c['R'] for c in cases}), 'N_values': sorted({len(c['rows']) for c in cases}),
                      'draw_variables': {str(k): sum(1 for c in cases if len(c.get('draws') or []) == k) for k in (1, 2, 3)}})
+    if st.disagreements:
+        ctx.stream_broken('mc', f'{len(st.disagreements)} disagreements; first: {json.dumps(st.disagreements[0], default=str)[:700]}')
+    return tcases
+
+
+def gen_multi_case(rng, conflict):
+    """2-3 formulas side by side sharing draw variables; conflict: one shared name carries ANOTHER type in one of the
+    formulas (each formula is consistent by itself)"""
+    nf = rng.choice([2, 2, 3])
+    k = rng.choice([2, 3])
+    draws = pick_draws(rng, k, USER_TYPES[:5])
+    tags = rng.sample(range(1, 7), k)
+    gens = [[t, 'tag', tg] for (_, t), tg in zip(draws, tags)] + [['T_other', 'tag', 7]]
+    rng.shuffle(gens)
+    shared = draws[0]
+    cj = rng.randrange(1, nf) if rng.random() < 0.7 else 0
+    g = DGen(rng, draws, max_depth=rng.choice([2, 3]), heads={'exclude': ['NormalCdf']})
+    trees = []
+    for j in range(nf):
+        sub = [shared] + rng.sample(draws[1:], rng.randint(0, k - 1))
+        if conflict and j == cj:
+            sub[0] = (shared[0], 'T_other')
+        g.pool = {kk: [] for kk in g.pool}          # no sub-tree shared between two formulas
+        g.draws = sub
+        order = list(sub)
+        rng.shuffle(order)
+        trees.append(U('MonteCarlo', B('Plus', g.real(g.max_depth), anchor(rng, order))))
+    return {'trees': trees, 'betas': g.betas, 'rows': g.rows(rng.choice([1, 3])), 'gens': gens, 'R': rng.choice([1, 2, 5]),
+            'threads': rng.choice([1, 2]), 'paths': ['gv', 'sim'], 'conflict': conflict,
+            'draws': [list(d) for d in dict.fromkeys(d for t in trees for d in draws_of(strip_sids(t)))]}
+
+
+def stream_multi(ctx, only=None):
+    """2-3 formulas through one IdManager([...]) and one BIOGEME(db, {...}).simulate (streams mc and table)"""
+    st = ctx.stream('mc', 'see stream_mc')
+    rng = ctx.sub_rng('multi')
+    if only is not None:
+        cases = only
+    else:
+        cases = corpus_cases('multi') + [gen_multi_case(rng, i % 3 == 2) for i in range(ctx.n(24, 240))]
+    res = run_eval(ctx, cases)
+    how = 'lib/impl/c10_draws.py mode eval on witness.case (formulas side by side: IdManager([...]) and BIOGEME(db, {...}).simulate)'
+    vcases, meta, tcases = [], [], []
+    for c, r in zip(cases, res):
+        conflict = c.get('conflict')
+        if 'crash' in r or 'harness_exc' in r or ('build_exc' in r and not conflict):
+            ctx.violation('C10/multi/crash', 'the runner failed on well-formed formulas', witness(c), None,
+                          r.get('crash') or r.get('harness_exc') or r.get('build_exc'), how)
+            continue
+        if 'build_exc' in r:
+            continue
+        if [strip_sids(t) for t in r['trees_back']] != [strip_sids(t) for t in c['trees']]:
+            st.disagree({'formulas': [strip_sids(t) for t in c['trees']]}, 'bridge round trip differs', r['trees_back'])
+            continue
+        benv = {k: v['value'] for k, v in c['betas'].items()}
+        tag = {g[0]: g[2] for g in c['gens']}
+        for path in c['paths']:
+            o = r.get(path)
+            if o is None:
+                continue
+            if 'exc' in o:
+                if conflict and o['exc'].startswith('BiogemeError'):
+                    st.record({'formulas': [strip_sids(t) for t in c['trees']], 'path': path, 'refused': o['exc'][:80]}, nontrivial=True)
+                    tcases.append(('refused', c, path, None))
+                    continue
+                ctx.violation(f'C10/multi/{path}/error', 'formulas side by side: the preparation / evaluation failed' +
+                              (' with another exception than BiogemeError' if conflict else ''), witness(c, path=path),
+                              'BiogemeError' if conflict else 'values', o['exc'], how)
+                continue
+            if len(o['values']) != len(c['trees']) or any(len(v) != len(c['rows']) for v in o['values']):
+                ctx.violation('C10/multi/count', 'wrong number of simulated values', witness(c, path=path), None, o['values'], how)
+                continue
+            # every bioDraws OBJECT carries the index of its name
+            if any(o['indices'].get(n) != i for n, _, i in o['objects']):
+                ctx.violation('C10/multi/draw-id', 'a bioDraws object does not carry the index of its name', witness(c, path=path),
+                              o['indices'], o['objects'], how)
+            for fi, (t, vals) in enumerate(zip(c['trees'], o['values'])):
+                plain = strip_sids(t)
+                ds = draws_of(plain)
+                expr = rename_by_type(plain)
+                for i, (row, v) in enumerate(zip(c['rows'], vals)):
+                    env = {'beta': benv, 'var': row,
+                           'draws': [{f'{n}@{ty}': tag_value(tag[ty], i, rr) for n, ty in ds} for rr in range(c['R'])]}
+                    vcases.append({'expr': expr, 'env': env, 'observed': v if isinstance(v, float) else ('minf' if v == 'minf' else 'error')})
+                    meta.append((c, path, fi, i, v))
+            if not conflict:
+                o2 = dict(o)
+                o2['ids'] = o['indices']
+                tcases.append(('formula', c, path, o2))
+    verdicts = check_values(ctx, 'c10multi', vcases, relbits=-30, batch=max(20, min(150, len(vcases) // 15 + 1))) if vcases else []
+    for (c, path, fi, i, obs), (v, info) in zip(meta, verdicts):
+        case = {'formulas': [strip_sids(t) for t in c['trees']], 'gens': c['gens'], 'R': c['R'], 'path': path, 'formula': fi, 'obs': i}
+        if v == 'undecided':
+            st.evaluations += 1
+            continue
+        st.record(case, nontrivial=True)
+        if v == 'differ':
+            if c.get('conflict'):
+                ctx.violation('C10/multi/conflicting-types', 'a draw variable declared with two different types in two formulas evaluated side by '
+                              'side is accepted (instead of refused) and a formula does not read the series of the type it declares',
+                              witness(c, path=path, formula_index=fi, observation=i),
+                              {'refusal (BiogemeError), or every formula reads the series of its own declared type': info}, obs, how)
+            elif ctx.violation(f'C10/multi/{path}', 'formulas side by side: a MonteCarlo formula does not return the mean over the series of the '
+                               'declared types', witness(c, path=path, formula_index=fi, observation=i), info, obs, how):
+                st.disagree(case, info, obs)
     if st.disagreements:
         ctx.stream_broken('mc', f'{len(st.disagreements)} disagreements; first: {json.dumps(st.disagreements[0], default=str)[:700]}')
     return tcases
@@ -557,15 +666,18 @@ def stream_table(ctx, tcases, only=None):
             continue
         if kind_ == 'refused':
             # a formula refused for conflicting draw types: the model must refuse it too
-            case = {'formula': strip_sids(c['tree']), 'gens': c['gens'], 'refused': path}
+            trees_ = c.get('trees') or [c['tree']]
+            case = {'formula': [strip_sids(t) for t in trees_], 'gens': c['gens'], 'refused': path}
             stt.record(case, nontrivial=True)
-            items.append(f'(match prepare_draws Z unit NAT {coq_gdict(c["gens"])} [{json_to_coq(strip_sids(c["tree"]))}] '
+            items.append(f'(match prepare_draws Z unit NAT {coq_gdict(c["gens"])} [{"; ".join(json_to_coq(strip_sids(t)) for t in trees_)}] '
                          f'{coq_list([coq_string(x) for x in c["rows"][0].keys()])} {len(c["rows"])}%nat {c["R"]}%nat tt '
                          f'with None => true | Some _ => false end)')
             icases.append((case, 'refused by the implementation'))
             continue
         tb = o.get('table')
-        case = {'formula': strip_sids(c['tree']), 'gens': c['gens'], 'N': len(c['rows']), 'R': c['R'], 'path': path}
+        trees_ = c.get('trees') or [c['tree']]
+        case = {'formula': [strip_sids(t) for t in trees_] if len(trees_) > 1 else strip_sids(trees_[0]),
+                'gens': c['gens'], 'N': len(c['rows']), 'R': c['R'], 'path': path}
         stt.record(case, nontrivial=len(o['names']) >= 2)
         # python-side oracles
         srt = sorted(n for n, _ in c['draws'])
@@ -588,7 +700,7 @@ def stream_table(ctx, tcases, only=None):
         cols = list(c['rows'][0].keys())
         ids = coq_list([f'({coq_string(n)}, {cz(i)})' for n, i in o['ids'].items()])
         tbl = f'(Some {coq_tensor(tb["int"])})' if tb is not None and 'int' in tb else 'None'
-        items.append(f'(chk_formula NAT {coq_gdict(c["gens"])} [{json_to_coq(strip_sids(c["tree"]))}] '
+        items.append(f'(chk_formula NAT {coq_gdict(c["gens"])} [{"; ".join(json_to_coq(strip_sids(t)) for t in trees_)}] '
                      f'{coq_list([coq_string(x) for x in cols])} {len(c["rows"])}%nat {c["R"]}%nat '
                      f'{coq_list([coq_string(n) for n in o["names"]])} {ids} {tbl})')
         icases.append((case, {'names': o['names'], 'ids': o['ids']}))
@@ -1258,6 +1370,7 @@ def run(ctx):
         walls[name] = round(time.time() - t, 1)
         return r
     tcases = timed('mc', stream_mc)
+    tcases = tcases + timed('multi', stream_multi)
     timed('table', stream_table, tcases)
     timed('native', stream_native)
     timed('seed', stream_seed)
@@ -1273,6 +1386,9 @@ def replay(ctx, path):
     n0 = len(ctx.violations) + len(ctx.known_hits)
     if 'group' in wit:
         stream_seed(ctx, only=[wit['group']])
+    elif key.startswith('C10/multi') and 'case' in wit:
+        t = stream_multi(ctx, only=[wit['case']])
+        stream_table(ctx, t, only=[])
     elif key.startswith('C10/mc') and 'case' in wit:
         stream_mc(ctx, only=[wit['case']])
     elif key.startswith('C10/native') and 'case' in wit:
